@@ -257,7 +257,6 @@ func rollDoubleCross(src *rand.PCGSource, addLine IntType, pool IntType, points 
 
 			if reachAddRound {
 				addCount += 1
-				maxDice = 10
 			}
 
 			if isShowDetails {
@@ -269,6 +268,10 @@ func rollDoubleCross(src *rand.PCGSource, addLine IntType, pool IntType, points 
 			}
 		}
 
+		if addCount > 0 {
+			// 本轮出现暴击则本轮计10，与暴击骰和其他骰子出现的先后无关
+			maxDice = 10
+		}
 		resultDice += maxDice
 		if mode == 1 {
 			// 最大值模式下加骰永远不会结束，因此只骰一轮
